@@ -99,7 +99,7 @@ EOF_KINDS = {"eof_u8", "eof_u16", "eof_char"}
 QUICK = [
     "u8", "u16", "i32", "u64", "i24", "u48", "i128", "f32", "char", "wchar", "uleb", "e8", "ptr",
     "a_u16_3", "a_char_4", "a_i24_2", "d_u16", "d_char", "z_char", "inner", "dyn", "anon_s", "a_inner_2",
-    "b16_full", "b8_part", "b32_sw8", "b16_sw8_2", "d_blk",
+    "b16_full", "b8_part", "b32_sw8", "b16_sw8_2", "d_blk", "be8", "bi8",
 ]
 
 
